@@ -189,12 +189,12 @@ def scoping4(op0: int, op1: int, op2: int, op3: int, has_rt: bool) -> int:
     return r
 
 
-_R5 = [0, 2, 3, 4, 5, 7, 8, 9]      # reduced alphabet for length 5 (drops the mapping form of handle() and derive-only)
+_R5 = [0, 2, 3, 5, 8]      # reduced alphabet for length 5: enter fresh / enter R0 / re-enter / exit by exception / replace a default
 
 
 @harness("C14", lemma="scoping-5", cubes={"op0": _R5, "op1": _R5, "has_rt": [False, True]},
-         pre=["op%d in (0, 2, 3, 4, 5, 7, 8, 9)" % i for i in range(2, 5)], example=dict(op0=9, op1=2, op2=3, op3=5, op4=8, has_rt=True),
-         timeout=900, tier="thorough", bounds="every sequence of 5 operations over the reduced alphabet {0,2,3,4,5,7,8,9} (32 768 x 2); " + _BOUNDS,
+         pre=["op%d in (0, 2, 3, 5, 8)" % i for i in range(2, 5)], example=dict(op0=0, op1=2, op2=3, op3=5, op4=8, has_rt=True),
+         timeout=900, tier="thorough", bounds="every sequence of 5 operations over the reduced alphabet {0,2,3,5,8} (3 125 x 2); " + _BOUNDS,
          what=_WHAT)
 def scoping5(op0: int, op1: int, op2: int, op3: int, op4: int, has_rt: bool) -> int:
     r, trace = _safe_run((op0, op1, op2, op3, op4), has_rt)
